@@ -11,6 +11,7 @@ import (
 
 	"verif/cfg"
 	"verif/core"
+	"verif/sg"
 	"verif/wl"
 )
 
@@ -589,11 +590,13 @@ func replayC09(c *core.Ctx, v *core.Violation) (bool, string) {
 // c09DocNoRefs produces a CR-free document without '[' and without ']:'.
 func c09Doc(r *rand.Rand, corpus []wl.Example) []byte {
 	var d []byte
-	switch r.Intn(6) {
+	switch r.Intn(7) {
 	case 0, 1, 2:
 		d = wl.SoupFrom(r, c08Lines, 1+r.Intn(8))
 	case 3:
 		d = wl.Soup(r, 1+r.Intn(20))
+	case 4:
+		d = []byte(sg.Document(r, 3, 4, 3, nil).Markdown)
 	default:
 		d = wl.Mix(r, corpus)
 	}
